@@ -78,13 +78,14 @@ theorem initState_both (n : Nat) :
   rcases fetch_both R n 0 with ⟨a, b⟩ | ⟨i', _, a, b⟩
   · left; unfold initState; rw [a, b]; exact ⟨rfl, rfl⟩
   · right
-    obtain ⟨hs_r, hs_l, _⟩ := known_around R (Nat.le_refl i') (R.tk i').startIdx (Nat.le_refl _) (R.span i')
-    obtain ⟨he_r, he_l, _⟩ := known_around R (Nat.le_refl i') (R.tk i').endIdx (R.span i') (Nat.le_refl _)
+    obtain ⟨hs_r, hs_l⟩ := known_start R (Nat.le_refl i') 0 (Nat.zero_le _)
+    obtain ⟨he_r, he_l⟩ := known_end R (Nat.le_refl i') 0 (Nat.zero_le _)
+    have hslt := R.sline_lt i'
     have hp := nl_pos R i'
     refine ⟨i', ⟨R.st (i' + 1), none, R.tk i', 0, 0, findLineIdx (R.st (i' + 1)).lines (R.tk i').startIdx 0,
       findLineIdx (R.st (i' + 1)).lines (R.tk i').endIdx 0, false⟩, ⟨rfl, hp, ?_, ?_, ⟨i', Nat.le_refl _, rfl⟩⟩, ?_, ?_⟩
     · show findLineIdx (R.st (i' + 1)).lines (R.tk i').startIdx 0 < nl R i'
-      rw [hs_r]; omega
+      rw [hs_r]; exact hslt
     · show findLineIdx (R.st (i' + 1)).lines (R.tk i').endIdx 0 < nl R i'
       rw [he_r]; omega
     · unfold initState; rw [a]; rfl
